@@ -107,7 +107,8 @@ def _live_connection(in_txn):
     return conn
 
 
-def run_impl(dialect, override, per_mig, hist, cmd, target, start_rows, bodies, conn_mode=None, dopts=None, prefix=None):
+def run_impl(dialect, override, per_mig, hist, cmd, target, start_rows, bodies, conn_mode=None, dopts=None, prefix=None,
+             none_key=False):
     """returns dict(toks, migs(for the model), dropVT, tddl, steps) or dict(err=...).
     prefix (a list of [dialect, override] pairs, possibly empty): the multidb shape - one EnvironmentContext, one
     configure()/begin_transaction()/run_migrations() per entry of prefix, each into a buffer of its own, and then the
@@ -160,7 +161,9 @@ def run_impl(dialect, override, per_mig, hist, cmd, target, start_rows, bodies, 
         "script": sd,
         "on_version_apply": (on_apply,),
     }
-    if override is not None:
+    if override is not None or none_key:
+        # none_key: the documented "no override" value written out, `opts={"transactional_ddl": None}` /
+        # `EnvironmentContext(cfg, script, transactional_ddl=None)`
         opts["transactional_ddl"] = override
     if start_rows:
         opts["starting_rev"] = start_rows if len(start_rows) > 1 else start_rows[0]
@@ -172,6 +175,8 @@ def run_impl(dialect, override, per_mig, hist, cmd, target, start_rows, bodies, 
         from alembic.runtime.environment import EnvironmentContext
 
         ekw = {"fn": fn, "as_sql": True}
+        if none_key:
+            ekw["transactional_ddl"] = None
         if start_rows:
             ekw["starting_rev"] = opts["starting_rev"]
         env = EnvironmentContext(Config(), sd, **ekw)
@@ -277,7 +282,8 @@ def leaked_override(inp):
     return None
 
 
-def one_case(ctx, dialect, override, per_mig, hist, cmd, target, rows, bodies, pending, conn_mode=None, dopts=None, prefix=None):
+def one_case(ctx, dialect, override, per_mig, hist, cmd, target, rows, bodies, pending, conn_mode=None, dopts=None, prefix=None,
+             none_key=False):
     inp = {"dialect": dialect, "override": override, "perMig": per_mig, "hist": hist, "cmd": cmd,
            "target": target, "rows": rows, "bodies": {k: [list(s) for s in v] for k, v in bodies.items()},
            "conn": conn_mode}
@@ -287,7 +293,10 @@ def one_case(ctx, dialect, override, per_mig, hist, cmd, target, rows, bodies, p
     if prefix is not None:
         inp["prefix"] = [list(x) for x in prefix]
         ctx.hist("configure_calls_before_the_judged_one", len(prefix))
-    r = run_impl(dialect, override, per_mig, hist, cmd, target, rows, bodies, conn_mode, dopts, prefix)
+    if none_key:
+        inp["noneKey"] = True
+    ctx.hist("transactional_ddl_option", "given" if override is not None else ("key present, value None" if none_key else "absent"))
+    r = run_impl(dialect, override, per_mig, hist, cmd, target, rows, bodies, conn_mode, dopts, prefix, none_key)
     ctx.hist("configured_with", conn_mode or ("dialect_name" if prefix is None else "EnvironmentContext.configure(dialect_name)"))
     ctx.evaluation()
     ctx.hist("dialect", dialect)
@@ -358,6 +367,11 @@ def run(ctx, n_cases=None, rng_name="main"):
             for ov in (None, True, False):
                 for pm in (False, True):
                     one_case(ctx, d, ov, pm, hist, cmd, target, rows, bodies, pending)
+        # "no override" written out as an explicit None (MigrationContext.configure directly and through EnvironmentContext(**kw))
+        for d in DIALECTS:
+            for pm in (False, True):
+                one_case(ctx, d, None, pm, hist, cmd, target, rows, bodies, pending, none_key=True)
+                one_case(ctx, d, None, pm, hist, cmd, target, rows, bodies, pending, none_key=True, prefix=[])
         # the dialects' own offline options: batch separator switched off / customised
         for d, dopts in (("mssql", {"mssql_batch_separator": ""}), ("mssql", {"mssql_batch_separator": "BYE"}),
                          ("oracle", {"oracle_batch_separator": ""}), ("oracle", {"oracle_batch_separator": "RUN"}),
@@ -416,7 +430,7 @@ def replay(ctx, case):
     bodies = {k: [tuple(s) for s in v] for k, v in inp["bodies"].items()}
     tgt = tuple(inp["target"]) if isinstance(inp["target"], list) else inp["target"]
     r = run_impl(inp["dialect"], inp["override"], inp["perMig"], inp["hist"], inp["cmd"], tgt, inp["rows"], bodies, inp.get("conn"), inp.get("dopts"),
-                 inp.get("prefix"))
+                 inp.get("prefix"), bool(inp.get("noneKey")))
     if "err" in r:
         return {"impl": r}
     base = {"tddl": r["tddl"], "perMig": inp["perMig"], "migs": r["migs"], "dropVT": r["dropVT"],
